@@ -59,6 +59,12 @@ def mon_reorg(h, obs):
             m = re.search(r" plink=(\S+)", o)
             if m and m.group(1) != "ok":
                 kind = "reorg" if op.startswith("reorg") else "block"
+                roots = [x for x in m.group(1).split("+") if x in ("txroot", "receiptroot")]
+                if roots and m.group(1).split("+")[0] == "ok" and "meta" not in m.group(1):
+                    hits.append(Hit(f"C09/stored-root-not-the-merkle-root/{kind}/{'+'.join(roots)}",
+                                    f"after `{op[:60]}`: the {' and the '.join(roots)} of the stored header is not the Merkle root recomputed from the stored "
+                                    f"{'transactions' if roots == ['txroot'] else 'transactions / receipts'}", detail=op))
+                    break
                 hits.append(Hit(f"C09/hash-link-broken/{kind}/{m.group(1)}", f"after `{op[:60]}`: the stored block's parent hash is not the hash of the stored block below it, or the chain meta does not name it ({m.group(1)})", detail=op))
                 break
     return hits
